@@ -34,7 +34,7 @@ ANCHORS = {
     '_continue', '_create', '_pickle_filepath', '_setup_event_hooks', '_ensure_persist_configured', '_bundle_representer',
     '_bundle_constructor', '_create_port', '_cleanup', '_done', '_format_msg',
 }
-MAX_DEPTH = 3
+MAX_DEPTH = 4
 
 
 def _docstring_free(body: List[ast.stmt]) -> List[ast.stmt]:
@@ -77,6 +77,14 @@ def _normalise_ifs(stmts: List[ast.stmt]) -> List[ast.stmt]:
                 ast.copy_location(new, s)
                 out.append(new)
                 return out
+            has_ret = any(isinstance(x, ast.Return) for b in body + orelse for x in ast.walk(b))
+            if rest and has_ret and _small_tail(rest):
+                # a return buried in one arm, both arms (partly) falling through to a SHORT, call-free rest (``assert x is not None`` ; ``return x``): the rest is
+                # the tail of each arm (two copies of a few statements that call nothing -- no call site is counted twice)
+                new = ast.If(test=s.test, body=_normalise_ifs(body + copy.deepcopy(rest)), orelse=_normalise_ifs(orelse + copy.deepcopy(rest)))
+                ast.copy_location(new, s)
+                out.append(new)
+                return out
             new = ast.If(test=s.test, body=body, orelse=orelse)
             ast.copy_location(new, s)
             out.append(new)
@@ -97,6 +105,11 @@ def _normalise_ifs(stmts: List[ast.stmt]) -> List[ast.stmt]:
         else:
             out.append(s)
     return out
+
+
+def _small_tail(rest: List[ast.stmt]) -> bool:
+    return len(rest) <= 3 and all(isinstance(x, (ast.Return, ast.Assert, ast.Assign, ast.Pass)) for x in rest) and not any(isinstance(n, (ast.Call, ast.Await, ast.Yield))
+                                                                                                                       for x in rest for n in ast.walk(x))
 
 
 def _returns_in_tail_only(stmts: List[ast.stmt], tail: bool = True) -> bool:
@@ -143,6 +156,14 @@ class _Subst(ast.NodeTransformer):
 
     def visit_FunctionDef(self, node):  # do not descend into nested definitions' own parameter scopes blindly
         self.generic_visit(node)
+        return node
+
+    def visit_Call(self, node: ast.Call):
+        self.generic_visit(node)
+        # a parameter bound to ``lambda: X`` and called without arguments is ``X`` (evaluated where the call stands)
+        if isinstance(node.func, ast.Lambda) and not node.args and not node.keywords and not (node.func.args.args or node.func.args.vararg or node.func.args.kwarg
+                                                                                            or node.func.args.kwonlyargs or node.func.args.posonlyargs):
+            return ast.copy_location(copy.deepcopy(node.func.body), node)
         return node
 
     def visit_ExceptHandler(self, node: ast.ExceptHandler):
@@ -217,8 +238,8 @@ class Inliner:
         local = self._local_function(func, fn)
         if local is None and (name is None or not name.startswith('_') or (name.startswith('__') and name.endswith('__')) or name in ANCHORS):
             return None
-        if any(isinstance(a, ast.Starred) for a in call.args) or any(k.arg is None for k in call.keywords):
-            return None
+        if any(isinstance(a, ast.Starred) for a in call.args[:-1]) or any(k.arg is None for k in call.keywords):
+            return None      # (a trailing ``*rest`` is looked at by _bind)
         t = self.calls.resolve_call(func, call)
         if t.uncontrolled or t.unknown or t.ctor is not None or len(t.funcs) != 1:
             return None
@@ -319,9 +340,21 @@ class Inliner:
         skip_self = g.cls is not None and not is_static
         bound: Dict[str, ast.expr] = {}
         plist = params[1:] if skip_self else params
-        if len(call.args) > len(plist):
+        args = list(call.args)
+        if args and isinstance(args[-1], ast.Starred) and not any(isinstance(a, ast.Starred) for a in args[:-1]) and not any(k.arg is None for k in call.keywords) \
+                and ga.vararg is None:
+            # ``f(a, *rest)``: the parameters that are left (and have no default) take ``rest[0]``, ``rest[1]`` ... -- only for a ``rest`` that can be evaluated
+            # again (a pure query such as ``sys.exc_info()[1:]``, a local)
+            rest = args.pop().value
+            named = {k.arg for k in call.keywords}
+            if _simple(rest) or _text(rest).startswith('sys.exc_info()'):
+                left = [p for i, p in enumerate(plist[len(args):]) if p not in named and (len(args) + i + (1 if skip_self else 0)) < first_default]
+                args += [ast.copy_location(ast.Subscript(value=copy.deepcopy(rest), slice=ast.Constant(value=j), ctx=ast.Load()), rest) for j in range(len(left))]
+            else:
+                return None
+        if len(args) > len(plist) or any(isinstance(a, ast.Starred) for a in args):
             return None
-        for p, a in zip(plist, call.args):
+        for p, a in zip(plist, args):
             bound[p] = a
         for k in call.keywords:
             if k.arg not in plist + kwonly or k.arg in bound or k.arg in posonly:
@@ -354,7 +387,11 @@ class Inliner:
         for p, a in bound.items():
             if isinstance(a, ast.Name) and a.id == p:
                 continue  # same name on both sides: nothing to bind (a reassignment inside the helper stays local enough for analysis)
-            if _simple(a) and p not in assigned:
+            thunk = isinstance(a, ast.Lambda) and not (a.args.args or a.args.vararg or a.args.kwarg or a.args.kwonlyargs or a.args.posonlyargs)
+            if thunk and p not in assigned and all(isinstance(par_, ast.Call) and par_.func is n_ and not par_.args and not par_.keywords
+                                                   for par_, n_ in _name_uses(g.node, p)):
+                mapping[p] = a     # every use of the parameter is a call without arguments: the thunk's body stands there (see _Subst.visit_Call)
+            elif _simple(a) and p not in assigned:
                 mapping[p] = a
             else:
                 new = p if p not in caller_names else f'{p}__{g.name.strip("_")}{self._counter}'
@@ -687,10 +724,14 @@ class Inliner:
         has_prop = func.owner_class is not None and any(isinstance(n, ast.Attribute) and isinstance(n.ctx, ast.Load) and isinstance(n.value, ast.Name) and n.value.id == 'self'
                                                         and n.attr in self._trivial_props(func.owner_class) for n in ast.walk(func.node))
         maybe_rev = any(isinstance(n, ast.Assign) and len(n.targets) == 1 and isinstance(n.targets[0], ast.Attribute) and isinstance(n.value, ast.Name) for n in ast.walk(func.node))
-        if not cand and not lower and not aliases and not has_prop and not maybe_rev:
+        filt = any(_is_filter_comp(getattr(n, 'value', None)) for n in ast.walk(func.node) if isinstance(n, (ast.Assign, ast.Return)))
+        if not cand and not lower and not aliases and not has_prop and not maybe_rev and not filt:
             return func
         before = len(self.log)
         node = copy.deepcopy(func.node)
+        if filt:
+            node.body = _lower_filter_comps(node.body)
+            self.log.append(f'{func.qualname}: list comprehension filtered by a private helper read as the loop it stands for')
         if lower:
             node.body = _lower_ifexp(node.body)
             self.log.append(f'{func.qualname}: conditional expressions lowered to if/else')
@@ -709,6 +750,16 @@ class Inliner:
                 collect(g)
         collect(tmp)
         func.module.all_funcs[:] = [g for g in func.module.all_funcs if id(g) not in scratch]
+        if _unroll_record_loops(node, self.prog, func.module):
+            self.log.append(f'{func.qualname}: loop over a literal table of records read as the ladder it stands for')
+        if _split_pair_assigns(node):
+            self.log.append(f'{func.qualname}: independent pair assignments read one by one')
+        recs = _split_records(node, self.prog, func.module)
+        if recs:
+            self.log.append(f'{func.qualname}: local records read field by field ({", ".join(sorted(recs))})')
+        sunk = _sink_flag_returns(node)
+        if sunk:
+            self.log.append(f'{func.qualname}: "if flag: return value" after a ladder that sets the flag moved into the ladder\'s arms ({", ".join(sorted(sunk))})')
         shadows = _shadow_locals(node)
         if shadows:
             self.log.append(f'{func.qualname}: local kept in step with an attribute read as that attribute ({", ".join(sorted(shadows))})')
@@ -1236,3 +1287,359 @@ def _shadow_locals(fn: ast.AST) -> Set[str]:
     if done:
         ast.fix_missing_locations(fn)
     return done
+
+
+def _split_records(fn: ast.AST, prog, module) -> Set[str]:
+    """A local that only ever holds a freshly built private record -- ``verdict = _KillVerdict(True, outcome)`` (a NamedTuple of the program) or a plain
+    ``pair = (True, outcome)`` -- and is only read field by field (``verdict.settled``, ``pair[0]``) is one local per field.  (What a helper that returns
+    ``(settled, outcome)`` leaves behind once it is inlined.)"""
+    if isinstance(fn, ast.Lambda):
+        return set()
+    done: Set[str] = set()
+    stores: Dict[str, List[ast.Assign]] = {}
+    for n in ast.walk(fn):
+        if isinstance(n, ast.Assign) and len(n.targets) == 1 and isinstance(n.targets[0], ast.Name):
+            stores.setdefault(n.targets[0].id, []).append(n)
+    params = {a.arg for a in ast.walk(fn.args) if isinstance(a, ast.arg)}
+    parent: Dict[int, ast.AST] = {}
+    for n in ast.walk(fn):
+        for c in ast.iter_child_nodes(n):
+            parent[id(c)] = n
+    for name, asg in stores.items():
+        if name in params:
+            continue
+        fields: Optional[List[str]] = None
+        ok = True
+        for a in asg:
+            v = a.value
+            if isinstance(v, ast.Call) and not v.keywords and not any(isinstance(x, ast.Starred) for x in v.args):
+                k = prog.resolve_class(module, v.func)
+                if k is None or not any(_text(b).split('.')[-1] == 'NamedTuple' for b in k.base_exprs) or k.methods:
+                    ok = False
+                    break
+                fl = [st.target.id for st in k.node.body if isinstance(st, ast.AnnAssign) and isinstance(st.target, ast.Name)]
+                if len(fl) != len(v.args):
+                    ok = False
+                    break
+            elif isinstance(v, ast.Tuple) and v.elts and not any(isinstance(x, ast.Starred) for x in v.elts):
+                fl = [str(i) for i in range(len(v.elts))]
+            else:
+                ok = False
+                break
+            if fields is None:
+                fields = fl
+            elif fields != fl:
+                ok = False
+                break
+        if not ok or not fields:
+            continue
+        # every other occurrence of the name is a field read
+        targets = {id(a.targets[0]) for a in asg}
+        reads = [n for n in ast.walk(fn) if isinstance(n, ast.Name) and n.id == name and id(n) not in targets]
+        repl: Dict[int, str] = {}
+        for r in reads:
+            par = parent.get(id(r))
+            if not isinstance(r.ctx, ast.Load):
+                ok = False
+                break
+            if isinstance(par, ast.Attribute) and par.value is r and isinstance(par.ctx, ast.Load) and par.attr in fields:
+                repl[id(par)] = par.attr
+            elif isinstance(par, ast.Subscript) and par.value is r and isinstance(par.ctx, ast.Load) and isinstance(par.slice, ast.Constant) and isinstance(par.slice.value, int) \
+                    and 0 <= par.slice.value < len(fields):
+                repl[id(par)] = fields[par.slice.value]
+            else:
+                ok = False
+                break
+        if not ok or not reads:
+            continue
+        taken = {n.id for n in ast.walk(fn) if isinstance(n, ast.Name)}
+        local = {f: (f'{name}_{f}' if f'{name}_{f}' not in taken else f'{name}__{f}_') for f in fields}
+
+        class T(ast.NodeTransformer):
+            def generic_visit(self, node):
+                if id(node) in repl:
+                    return ast.copy_location(ast.Name(id=local[repl[id(node)]], ctx=ast.Load()), node)
+                return super().generic_visit(node)
+
+            def visit_Assign(self, node):
+                if any(node is a for a in asg):
+                    vals = node.value.args if isinstance(node.value, ast.Call) else node.value.elts
+                    # all the fields are computed before any is bound: temporaries only where a value mentions another field's local -- it cannot, the names are new
+                    return [ast.copy_location(ast.Assign(targets=[ast.Name(id=local[f], ctx=ast.Store())], value=self.visit(x), lineno=node.lineno, col_offset=node.col_offset), node)
+                            for f, x in zip(fields, vals)]
+                return self.generic_visit(node)
+        new_body = []
+        for st in fn.body:
+            r = T().visit(st)
+            new_body.extend(r if isinstance(r, list) else [r])
+        fn.body = new_body
+        done.add(name)
+    if done:
+        ast.fix_missing_locations(fn)
+    return done
+
+
+def _sink_flag_returns(fn: ast.AST) -> Set[str]:
+    """``if A: done, out = True, x  elif B: done, out = True, y  else: done, out = False, None`` ; ``if done: return out`` -- what is left of a helper that answers
+    "(is it settled, with what)" once it is inlined and its record split -- is the ladder of early returns it was made from: the arms that set the flag return their
+    value, the others fall through.  Only when EVERY arm of the ladder (there must be a final else) sets the flag to a constant as one of its last, straight-line
+    statements."""
+    done: Set[str] = set()
+
+    def arms_of(st: ast.If) -> Optional[List[List[ast.stmt]]]:
+        arms = [st.body]
+        cur = st
+        while len(cur.orelse) == 1 and isinstance(cur.orelse[0], ast.If):
+            cur = cur.orelse[0]
+            arms.append(cur.body)
+        if not cur.orelse:
+            return None
+        arms.append(cur.orelse)
+        return arms
+
+    def tail_consts(arm: List[ast.stmt]) -> Dict[str, ast.expr]:
+        """locals bound by the trailing run of plain ``name = expr`` statements of the arm"""
+        out: Dict[str, ast.expr] = {}
+        for st in reversed(arm):
+            if isinstance(st, ast.Assign) and len(st.targets) == 1 and isinstance(st.targets[0], ast.Name):
+                out.setdefault(st.targets[0].id, st.value)
+            elif isinstance(st, ast.Pass):
+                continue
+            else:
+                break
+        return out
+
+    def rewrite(block: List[ast.stmt]) -> List[ast.stmt]:
+        out: List[ast.stmt] = []
+        i = 0
+        while i < len(block):
+            st = block[i]
+            for fld in ('body', 'orelse', 'finalbody'):
+                if isinstance(getattr(st, fld, None), list) and not isinstance(st, (ast.FunctionDef, ast.AsyncFunctionDef, ast.ClassDef)):
+                    setattr(st, fld, rewrite(getattr(st, fld)))
+            for h in getattr(st, 'handlers', []) or []:
+                h.body = rewrite(h.body)
+            nxt = block[i + 1] if i + 1 < len(block) else None
+            if isinstance(st, ast.If) and isinstance(nxt, ast.If) and not nxt.orelse and len(nxt.body) == 1 and isinstance(nxt.body[0], ast.Return) \
+                    and isinstance(nxt.body[0].value, ast.Name) and _text(nxt.test) == f'{nxt.body[0].value.id} is not None':
+                # ``if A: r = f() elif B: r = g() else: r = None`` ; ``if r is not None: return r``: the test moves to the end of the arms that bind ``r`` to
+                # something (where it stays a test: ``f()`` may hand back None), the arms that bind None fall through
+                var = nxt.body[0].value.id
+                arms = arms_of(st)
+                tails = [tail_consts(a) for a in arms] if arms is not None else []
+                reads = [n for n in ast.walk(fn) if isinstance(n, ast.Name) and n.id == var and isinstance(n.ctx, ast.Load)]
+                if arms is not None and all(var in t for t in tails) and len(reads) == 2 and any(isinstance(t[var], ast.Constant) and t[var].value is None for t in tails):
+                    for a, t in zip(arms, tails):
+                        if not (isinstance(t[var], ast.Constant) and t[var].value is None):
+                            a.append(copy.deepcopy(nxt))
+                    done.add(var)
+                    out.append(st)
+                    i += 2
+                    continue
+            if isinstance(st, ast.If) and isinstance(nxt, ast.If) and not nxt.orelse and isinstance(nxt.test, ast.Name) and len(nxt.body) == 1 \
+                    and isinstance(nxt.body[0], ast.Return) and nxt.body[0].value is not None and _simple(nxt.body[0].value):
+                flag = nxt.test.id
+                arms = arms_of(st)
+                ok = arms is not None
+                tails = [tail_consts(a) for a in arms] if ok else []
+                ok = ok and all(flag in t and isinstance(t[flag], ast.Constant) and isinstance(t[flag].value, bool) for t in tails)
+                # the flag must not be read anywhere else (it exists only to carry the decision to this test)
+                if ok:
+                    reads = [n for n in ast.walk(fn) if isinstance(n, ast.Name) and n.id == flag and isinstance(n.ctx, ast.Load)]
+                    ok = len(reads) == 1
+                if ok:
+                    rv = nxt.body[0].value
+                    for a, t in zip(arms, tails):
+                        if t[flag].value is True:
+                            val = t.get(rv.id) if isinstance(rv, ast.Name) else None
+                            ret = ast.Return(value=copy.deepcopy(val) if val is not None and _simple(val) else copy.deepcopy(rv))
+                            a.append(ast.copy_location(ret, nxt.body[0]))
+                    done.add(flag)
+                    out.append(st)
+                    i += 2
+                    continue
+            out.append(st)
+            i += 1
+        return out
+    if isinstance(fn, ast.Lambda):
+        return done
+    fn.body = rewrite(fn.body)
+    if done:
+        ast.fix_missing_locations(fn)
+    return done
+
+
+def _is_filter_comp(v) -> bool:
+    """``[x for x, y in it if self._helper(x, y)]``: one generator, one condition, and the condition is a call of a private helper (which may do the work of the
+    loop body it was lifted from)."""
+    if not isinstance(v, ast.ListComp) or len(v.generators) != 1:
+        return False
+    g = v.generators[0]
+    if g.is_async or len(g.ifs) != 1 or not isinstance(g.ifs[0], ast.Call):
+        return False
+    fn = g.ifs[0].func
+    name = fn.attr if isinstance(fn, ast.Attribute) else (fn.id if isinstance(fn, ast.Name) else '')
+    return name.startswith('_') and not name.startswith('__')
+
+
+def _lower_filter_comps(stmts: List[ast.stmt], k=[0]) -> List[ast.stmt]:
+    """``return [x for t in it if self._h(t)]`` -> ``acc = [] ; for t in it: if self._h(t): acc.append(x)`` ; ``return acc`` (statement level only)."""
+    out: List[ast.stmt] = []
+    for s in stmts:
+        if isinstance(s, (ast.FunctionDef, ast.AsyncFunctionDef, ast.ClassDef)):
+            out.append(s)
+            continue
+        v = getattr(s, 'value', None)
+        if isinstance(s, (ast.Assign, ast.Return)) and _is_filter_comp(v):
+            k[0] += 1
+            acc = f'collected_{k[0]}'
+            g = v.generators[0]
+            app = ast.Expr(value=ast.Call(func=ast.Attribute(value=ast.Name(id=acc, ctx=ast.Load()), attr='append', ctx=ast.Load()), args=[v.elt], keywords=[]))
+            loop = ast.For(target=g.target, iter=g.iter, body=[ast.If(test=g.ifs[0], body=[app], orelse=[])], orelse=[])
+            init = ast.Assign(targets=[ast.Name(id=acc, ctx=ast.Store())], value=ast.List(elts=[], ctx=ast.Load()))
+            s.value = ast.Name(id=acc, ctx=ast.Load())
+            for x in (init, loop, s):
+                ast.copy_location(x, s)
+                ast.fix_missing_locations(x)
+            out += [init, loop, s]
+            continue
+        for fld in ('body', 'orelse', 'finalbody'):
+            if isinstance(getattr(s, fld, None), list):
+                setattr(s, fld, _lower_filter_comps(getattr(s, fld)))
+        for h in getattr(s, 'handlers', []) or []:
+            h.body = _lower_filter_comps(h.body)
+        out.append(s)
+    return out
+
+
+def _split_pair_assigns(fn: ast.AST) -> bool:
+    """``a, b = (x, y)`` where neither ``a`` nor ``b`` occurs in ``x`` or ``y`` and both are plain locals is ``a = x`` ; ``b = y`` (what an inlined helper that returns
+    a pair leaves behind).  Values are simple (names, attributes, constants, empty displays): evaluation order is immaterial."""
+    if isinstance(fn, ast.Lambda):
+        return False
+    hit = [False]
+
+    def ok_value(v: ast.expr) -> bool:
+        return _simple(v) or (isinstance(v, (ast.Tuple, ast.List, ast.Dict)) and not (getattr(v, 'elts', None) or getattr(v, 'keys', None)))
+
+    def rewrite(block: List[ast.stmt]) -> List[ast.stmt]:
+        out: List[ast.stmt] = []
+        for st in block:
+            if isinstance(st, (ast.FunctionDef, ast.AsyncFunctionDef, ast.ClassDef)):
+                out.append(st)
+                continue
+            for fld in ('body', 'orelse', 'finalbody'):
+                if isinstance(getattr(st, fld, None), list):
+                    setattr(st, fld, rewrite(getattr(st, fld)))
+            for h in getattr(st, 'handlers', []) or []:
+                h.body = rewrite(h.body)
+            if isinstance(st, ast.Assign) and len(st.targets) == 1 and isinstance(st.targets[0], ast.Tuple) and isinstance(st.value, ast.Tuple) \
+                    and len(st.targets[0].elts) == len(st.value.elts) and all(isinstance(t, ast.Name) for t in st.targets[0].elts) and all(ok_value(v) for v in st.value.elts):
+                tn = {t.id for t in st.targets[0].elts}
+                used = {x.id for v in st.value.elts for x in ast.walk(v) if isinstance(x, ast.Name)}
+                if not (tn & used) and len(tn) == len(st.targets[0].elts):
+                    for t, v in zip(st.targets[0].elts, st.value.elts):
+                        out.append(ast.copy_location(ast.Assign(targets=[t], value=v, lineno=st.lineno, col_offset=st.col_offset), st))
+                    hit[0] = True
+                    continue
+            out.append(st)
+        return out
+    fn.body = rewrite(fn.body)
+    if hit[0]:
+        ast.fix_missing_locations(fn)
+    return hit[0]
+
+
+def _name_uses(fn: ast.AST, name: str) -> List[Tuple[Optional[ast.AST], ast.Name]]:
+    """(parent, node) for every read of the local ``name`` in the function"""
+    out = []
+    for par in ast.walk(fn):
+        for ch in ast.iter_child_nodes(par):
+            if isinstance(ch, ast.Name) and ch.id == name and isinstance(ch.ctx, ast.Load):
+                out.append((par, ch))
+    return out
+
+
+def _unroll_record_loops(fn: ast.AST, prog, module) -> bool:
+    """``for r in (Route(A, self._a), Route(B, self._b)): if key == r.key: return await r.handler(x)`` -- a routing table written out in place (or handed back by an
+    inlined one-expression helper) -- is the if-ladder ``if key == A: return await self._a(x)`` ; ``if key == B: ...``.  Conditions: a literal tuple / list of at most 8
+    record constructions (one NamedTuple class of the program, or plain tuples of one length) whose fields are simple expressions, a loop variable that is only read
+    field by field (or unpacked in the loop header), no ``break`` / ``continue`` / ``else``."""
+    if isinstance(fn, ast.Lambda):
+        return False
+    hit = [False]
+
+    def fields_of(e: ast.expr) -> Optional[Tuple[List[str], List[ast.expr]]]:
+        if isinstance(e, ast.Call) and not e.keywords and not any(isinstance(a, ast.Starred) for a in e.args):
+            k = prog.resolve_class(module, e.func)
+            if k is None or not any(_text(b).split('.')[-1] == 'NamedTuple' for b in k.base_exprs):
+                return None
+            fl = [st.target.id for st in k.node.body if isinstance(st, ast.AnnAssign) and isinstance(st.target, ast.Name)]
+            return (fl, list(e.args)) if len(fl) == len(e.args) else None
+        if isinstance(e, ast.Tuple) and e.elts and not any(isinstance(a, ast.Starred) for a in e.elts):
+            return [str(i) for i in range(len(e.elts))], list(e.elts)
+        return None
+
+    def rewrite(block: List[ast.stmt]) -> List[ast.stmt]:
+        out: List[ast.stmt] = []
+        for st in block:
+            if isinstance(st, (ast.FunctionDef, ast.AsyncFunctionDef, ast.ClassDef)):
+                out.append(st)
+                continue
+            for fld in ('body', 'orelse', 'finalbody'):
+                if isinstance(getattr(st, fld, None), list):
+                    setattr(st, fld, rewrite(getattr(st, fld)))
+            for h in getattr(st, 'handlers', []) or []:
+                h.body = rewrite(h.body)
+            if isinstance(st, ast.For) and not st.orelse and isinstance(st.iter, (ast.Tuple, ast.List)) and 1 <= len(st.iter.elts) <= 8:
+                recs = [fields_of(e) for e in st.iter.elts]
+                if all(r is not None for r in recs) and len({tuple(r[0]) for r in recs}) == 1 and all(_simple(v) for r in recs for v in r[1]) \
+                        and not any(isinstance(n, (ast.Break, ast.Continue)) for b in st.body for n in ast.walk(b)):
+                    names = recs[0][0]
+                    ok = True
+                    if isinstance(st.target, ast.Name):
+                        var = st.target.id
+                        parent = {id(c): p for b in st.body for p in ast.walk(b) for c in ast.iter_child_nodes(p)}
+                        for b in st.body:
+                            for n in ast.walk(b):
+                                if isinstance(n, ast.Name) and n.id == var:
+                                    par = parent.get(id(n))
+                                    if not (isinstance(n.ctx, ast.Load) and ((isinstance(par, ast.Attribute) and par.attr in names) or (
+                                            isinstance(par, ast.Subscript) and par.value is n and isinstance(par.slice, ast.Constant) and isinstance(par.slice.value, int) and 0 <= par.slice.value < len(names)))):
+                                        ok = False
+                    elif isinstance(st.target, ast.Tuple) and all(isinstance(t, ast.Name) for t in st.target.elts) and len(st.target.elts) == len(names):
+                        var = None
+                        if any(isinstance(n, ast.Name) and n.id in {t.id for t in st.target.elts} and not isinstance(n.ctx, ast.Load) for b in st.body for n in ast.walk(b)):
+                            ok = False
+                    else:
+                        ok = False
+                    if ok:
+                        for fl, vals in recs:
+                            if var is not None:
+                                class T(ast.NodeTransformer):
+                                    def visit_Attribute(self, node, _fl=fl, _vals=vals):
+                                        if isinstance(node.value, ast.Name) and node.value.id == var and node.attr in _fl:
+                                            return ast.copy_location(copy.deepcopy(_vals[_fl.index(node.attr)]), node)
+                                        return self.generic_visit(node)
+
+                                    def visit_Subscript(self, node, _vals=vals):
+                                        if isinstance(node.value, ast.Name) and node.value.id == var and isinstance(node.slice, ast.Constant):
+                                            return ast.copy_location(copy.deepcopy(_vals[node.slice.value]), node)
+                                        return self.generic_visit(node)
+                            else:
+                                tn = [t.id for t in st.target.elts]
+
+                                class T(ast.NodeTransformer):   # type: ignore[no-redef]
+                                    def visit_Name(self, node, _tn=tn, _vals=vals):
+                                        if node.id in _tn and isinstance(node.ctx, ast.Load):
+                                            return ast.copy_location(copy.deepcopy(_vals[_tn.index(node.id)]), node)
+                                        return node
+                            out.extend(T().visit(copy.deepcopy(b)) for b in st.body)
+                        hit[0] = True
+                        continue
+            out.append(st)
+        return out
+    fn.body = rewrite(fn.body)
+    if hit[0]:
+        ast.fix_missing_locations(fn)
+    return hit[0]
